@@ -81,7 +81,24 @@ def _setup():
 def _build_env(st, env):
     objs = {}
     for o in env['objects']:
-        objs[o['id']] = (st['TripG'] if o.get('cls') == 'G' else st['Trip'])()
+        if o.get('cls') == 'N':
+            # a REAL graphtage tree (what --match-if hands to the expression), its root tripwired by swapping in a
+            # subclass that records reads of the planted names
+            import graphtage.json as gj
+            node = gj.build_tree(o['doc'])
+            base = type(node)
+            sub = st.setdefault('subs', {}).get(base)
+            if sub is None:
+                def ga(self, name, _base=base, _meta=st['meta'], _reads=st['reads']):
+                    m = _meta.get(id(self))
+                    if m is not None and name in m[1]:
+                        _reads.append([m[0], name])
+                    return _base.__getattribute__(self, name)
+                sub = st['subs'][base] = type('Trip' + base.__name__, (base,), {'__getattribute__': ga})
+            node.__class__ = sub
+            objs[o['id']] = node
+        else:
+            objs[o['id']] = (st['TripG'] if o.get('cls') == 'G' else st['Trip'])()
 
     def mk(v):
         k, x = next(iter(v.items()))
@@ -222,6 +239,18 @@ def std_env(variant=0):
     if variant == 1:
         loc.append(['g', {'o': 3}])
     return {'objects': objs, 'locals': loc}
+
+
+def treenode_env():
+    """What MatchIf passes: real TreeNodes (their generator method dfs is an ordinary Python function)."""
+    return {'objects': [{'id': 0, 'cls': 'N', 'doc': {'a': [1, 2], 'b': 'x'}, 'attrs': [['_x', {'s': 'SECRET'}], ['dfs', {'g': 0}]]},
+                        {'id': 1, 'cls': 'N', 'doc': {'a': [1, 3]}, 'attrs': [['_x', {'i': 7}], ['dfs', {'g': 1}]]}],
+            'locals': [['from', {'o': 0}], ['to', {'o': 1}]]}
+
+
+TREENODE_EXPRS = ["((((((list(zip((iter((from.dfs), 0)), [1])))[0])[0]).gi_frame).f_builtins)['getattr'])(from, '_x')",
+                  "'{0._x}{1._x}'.format(from, to)", "from._x", "to.__dict__", "from.dfs", "(from.dfs)(to)",
+                  "'{0.dfs.__func__.__globals__}'.format(from)"]
 
 
 def data_env():
@@ -424,6 +453,8 @@ def gen_cases(tier, rng):
         for _ in range(2 if tier == 'quick' else 10):
             cases.append({'expr': mutate(rng, s), 'env': e0, 'stream': 'mutated'})
     cases.append({'expr': FRAME_ESCAPE, 'env': e1, 'stream': 'frame'})
+    for s in TREENODE_EXPRS:
+        cases.append({'expr': s, 'env': treenode_env(), 'stream': 'treenode'})
     return cases
 
 
